@@ -14,14 +14,6 @@ def Incr : Rat → Rat → List (Rat × Rat) → Prop
   | _, _, [] => True
   | x0, y0, (x1, y1) :: rest => x0 < x1 ∧ y0 < y1 ∧ Incr x1 y1 rest
 
-def lastX : Rat → List (Rat × Rat) → Rat
-  | x0, [] => x0
-  | _, (x1, _) :: rest => lastX x1 rest
-
-def lastY : Rat → List (Rat × Rat) → Rat
-  | y0, [] => y0
-  | _, (_, y1) :: rest => lastY y1 rest
-
 def curveLoX : List (Rat × Rat) → Rat
   | [] => 0
   | (x0, _) :: _ => x0
@@ -184,6 +176,190 @@ theorem interp_range {x x0 y0 : Rat} {rest : List (Rat × Rat)} (h : Incr x0 y0 
   · simp [interp, he, hl]
   · simp only [interp, he, if_false]
     exact ⟨interpFrom_ge h hx0, interpFrom_le_last h hx0⟩
+
+/-! ### the extrapolating lookup of the proposed repair -/
+
+theorem le_lastX {x0 y0 : Rat} {rest : List (Rat × Rat)} (h : Incr x0 y0 rest) : x0 ≤ lastX x0 rest := by
+  induction rest generalizing x0 y0 with
+  | nil => simp [lastX]
+  | cons p r ih =>
+    obtain ⟨x1, y1⟩ := p
+    obtain ⟨hx1, _, hr⟩ := h
+    simpa [lastX] using le_trans (le_of_lt hx1) (ih hr)
+
+theorem interpFrom_above {x x0 y0 : Rat} {rest : List (Rat × Rat)} (h : Incr x0 y0 rest) (hx : lastX x0 rest ≤ x) :
+    interpFrom x x0 y0 rest = lastY y0 rest := by
+  induction rest generalizing x0 y0 with
+  | nil => simp [interpFrom, lastY]
+  | cons p r ih =>
+    obtain ⟨x1, y1⟩ := p
+    obtain ⟨_, _, hr⟩ := h
+    have h1 : x1 ≤ x := le_trans (le_lastX hr) (by simpa [lastX] using hx)
+    have : ¬ x < x1 := not_lt.mpr h1
+    simp only [interpFrom, this, if_false, lastY]
+    exact ih hr (by simpa [lastX] using hx)
+
+theorem interp_above {x x0 y0 : Rat} {rest : List (Rat × Rat)} (h : Incr x0 y0 rest) (hx : lastX x0 rest ≤ x) :
+    interp x ((x0, y0) :: rest) = lastY y0 rest := by
+  by_cases he : x ≤ x0
+  · have e : lastX x0 rest = x0 := le_antisymm (le_trans hx he) (le_lastX h)
+    have hx' : x = x0 := le_antisymm he (e ▸ hx)
+    subst hx'
+    simp only [interp, le_refl, if_true]
+    have := interpFrom_above (x := x) h (le_of_eq e)
+    cases rest with
+    | nil => rfl
+    | cons p r =>
+      obtain ⟨x1, y1⟩ := p
+      obtain ⟨hx1, _, hr⟩ := h
+      have : x1 ≤ x := by rw [← e]; simpa [lastX] using le_lastX hr
+      linarith
+  · simp only [interp, he, if_false]
+    exact interpFrom_above h hx
+
+theorem slopeFirst_mul_swap {x0 y0 : Rat} {rest : List (Rat × Rat)} (h : Incr x0 y0 rest) (hne : rest ≠ []) :
+    slopeFirst ((x0, y0) :: rest) * slopeFirst (swapPts ((x0, y0) :: rest)) = 1 := by
+  cases rest with
+  | nil => exact absurd rfl hne
+  | cons p r =>
+    obtain ⟨x1, y1⟩ := p
+    obtain ⟨hx1, hy1, _⟩ := h
+    have ha : x1 - x0 ≠ 0 := by linarith
+    have hb : y1 - y0 ≠ 0 := by linarith
+    simp only [slopeFirst, swapPts_cons]
+    field_simp
+
+theorem slopeLast_mul_swap {x0 y0 : Rat} {rest : List (Rat × Rat)} (h : Incr x0 y0 rest) (hne : rest ≠ []) :
+    slopeLastFrom x0 y0 rest * slopeLastFrom y0 x0 (swapPts rest) = 1 := by
+  induction rest generalizing x0 y0 with
+  | nil => exact absurd rfl hne
+  | cons p r ih =>
+    obtain ⟨x1, y1⟩ := p
+    obtain ⟨hx1, hy1, hr⟩ := h
+    cases r with
+    | nil =>
+      have ha : x1 - x0 ≠ 0 := by linarith
+      have hb : y1 - y0 ≠ 0 := by linarith
+      simp only [slopeLastFrom, swapPts_cons, swapPts_nil]
+      field_simp
+    | cons p2 r2 =>
+      obtain ⟨x2, y2⟩ := p2
+      have := ih (x0 := x1) (y0 := y1) hr (by simp)
+      simpa [slopeLastFrom] using this
+
+theorem slopeLast_pos {x0 y0 : Rat} {rest : List (Rat × Rat)} (h : Incr x0 y0 rest) (hne : rest ≠ []) :
+    0 < slopeLastFrom x0 y0 rest := by
+  induction rest generalizing x0 y0 with
+  | nil => exact absurd rfl hne
+  | cons p r ih =>
+    obtain ⟨x1, y1⟩ := p
+    obtain ⟨hx1, hy1, hr⟩ := h
+    cases r with
+    | nil => simp only [slopeLastFrom]; exact div_pos (by linarith) (by linarith)
+    | cons p2 r2 => simp only [slopeLastFrom]; exact ih hr (by simp)
+
+/-- `interpX_inverse`: with the end segments continued, the lookup is a bijection — for EVERY abscissa, inside or outside
+the curve, `interpX (interpX x c) (swap c) = x` (curve with at least two points, strictly increasing) -/
+theorem interpX_inverse_aux {x0 y0 : Rat} {rest : List (Rat × Rat)} (h : Incr x0 y0 rest) (hne : rest ≠ []) (x : Rat) :
+    interpX (interpX x ((x0, y0) :: rest)) (swapPts ((x0, y0) :: rest)) = x := by
+  have hs : Incr y0 x0 (swapPts rest) := Incr.swap h
+  have hxl : x0 ≤ lastX x0 rest := le_lastX h
+  have hyl : y0 ≤ lastY y0 rest := le_lastY h
+  have eLX : lastX y0 (swapPts rest) = lastY y0 rest := lastX_swap x0 y0 rest
+  have eLY : lastY x0 (swapPts rest) = lastX x0 rest := lastY_swap x0 y0 rest
+  have s0 := slopeFirst_mul_swap h hne
+  have sl := slopeLast_mul_swap h hne
+  rcases lt_trichotomy x x0 with hlt | heq | hgt
+  · -- left of the curve
+    have e1 : interp x ((x0, y0) :: rest) = y0 := by simp [interp, le_of_lt hlt]
+    have c1 : x - x0 < 0 := by linarith
+    have c2 : ¬ (0 < x - lastX x0 rest) := by linarith
+    have hy : interpX x ((x0, y0) :: rest) = y0 + (x - x0) * slopeFirst ((x0, y0) :: rest) := by
+      simp only [interpX, e1, c1, c2, if_true, if_false]; ring
+    have spos : 0 < slopeFirst ((x0, y0) :: rest) := by
+      cases rest with
+      | nil => exact absurd rfl hne
+      | cons p r =>
+        obtain ⟨x1, y1⟩ := p
+        obtain ⟨hx1, hy1, _⟩ := h
+        simp only [slopeFirst]
+        exact div_pos (by linarith) (by linarith)
+    have ylt : interpX x ((x0, y0) :: rest) < y0 := by rw [hy]; nlinarith
+    set y := interpX x ((x0, y0) :: rest) with hyd
+    have e2 : interp y (swapPts ((x0, y0) :: rest)) = x0 := by simp [interp, le_of_lt ylt]
+    have c3 : y - y0 < 0 := by linarith
+    have c4 : ¬ (0 < y - lastX y0 (swapPts rest)) := by rw [eLX]; linarith
+    simp only [swapPts_cons] at e2 s0 ⊢
+    simp only [interpX, e2, c3, c4, if_true, if_false]
+    rw [hy]
+    have : (y0 + (x - x0) * slopeFirst ((x0, y0) :: rest) - y0) * slopeFirst ((y0, x0) :: swapPts rest)
+        = (x - x0) * (slopeFirst ((x0, y0) :: rest) * slopeFirst ((y0, x0) :: swapPts rest)) := by ring
+    rw [this, s0]; ring
+  · subst heq
+    have e1 : interpX x ((x, y0) :: rest) = y0 := by
+      have c2 : ¬ (0 < x - lastX x rest) := by linarith
+      simp [interpX, interp, c2]
+    rw [e1]
+    have c4 : ¬ (0 < y0 - lastX y0 (swapPts rest)) := by rw [eLX]; linarith
+    simp [interpX, interp, c4]
+  · by_cases hin : x ≤ lastX x0 rest
+    · -- inside
+      have c1 : ¬ (x - x0 < 0) := by linarith
+      have c2 : ¬ (0 < x - lastX x0 rest) := by linarith
+      have hy : interpX x ((x0, y0) :: rest) = interp x ((x0, y0) :: rest) := by
+        simp only [interpX, c1, c2, if_false]; ring
+      obtain ⟨r0, r1⟩ := interp_range h (le_of_lt hgt)
+      rw [hy]
+      have c3 : ¬ (interp x ((x0, y0) :: rest) - y0 < 0) := by linarith
+      have c4 : ¬ (0 < interp x ((x0, y0) :: rest) - lastX y0 (swapPts rest)) := by rw [eLX]; linarith
+      have inv := interp_inverse_aux h (le_of_lt hgt) hin
+      simp only [swapPts_cons] at inv ⊢
+      simp only [interpX, c3, c4, if_false]
+      rw [inv]; ring
+    · -- right of the curve
+      have hgt2 : lastX x0 rest < x := not_le.mp hin
+      have e1 : interp x ((x0, y0) :: rest) = lastY y0 rest := interp_above h (le_of_lt hgt2)
+      have c1 : ¬ (x - x0 < 0) := by linarith
+      have c2 : 0 < x - lastX x0 rest := by linarith
+      have hy : interpX x ((x0, y0) :: rest) = lastY y0 rest + (x - lastX x0 rest) * slopeLastFrom x0 y0 rest := by
+        simp only [interpX, e1, c1, c2, if_true, if_false]; ring
+      have spos : 0 < slopeLastFrom x0 y0 rest := slopeLast_pos h hne
+      have ygt : lastY y0 rest < interpX x ((x0, y0) :: rest) := by rw [hy]; nlinarith
+      set y := interpX x ((x0, y0) :: rest) with hyd
+      have e2 : interp y (swapPts ((x0, y0) :: rest)) = lastX x0 rest := by
+        have := interp_above (x := y) hs (by rw [eLX]; exact le_of_lt ygt)
+        rw [eLY] at this
+        simpa using this
+      have c3 : ¬ (y - y0 < 0) := by linarith
+      have c4 : 0 < y - lastX y0 (swapPts rest) := by rw [eLX]; linarith
+      simp only [swapPts_cons] at e2 ⊢
+      simp only [interpX, e2, c3, c4, if_true, if_false]
+      rw [eLX, hy]
+      have : (lastY y0 rest + (x - lastX x0 rest) * slopeLastFrom x0 y0 rest - lastY y0 rest) * slopeLastFrom y0 x0 (swapPts rest)
+          = (x - lastX x0 rest) * (slopeLastFrom x0 y0 rest * slopeLastFrom y0 x0 (swapPts rest)) := by ring
+      rw [this, sl]; ring
+
+theorem two_points_of_range {c : List (Rat × Rat)} (h : curveLoX c < curveHiX c) :
+    ∃ x0 y0 rest, c = (x0, y0) :: rest ∧ rest ≠ [] := by
+  cases c with
+  | nil => simp [curveLoX, curveHiX] at h
+  | cons p rest =>
+    obtain ⟨x0, y0⟩ := p
+    refine ⟨x0, y0, rest, rfl, ?_⟩
+    intro e; subst e; simp [curveLoX, curveHiX, lastX] at h
+
+/-- `interpX_inverse`: the extrapolating lookups level→volume and volume→level are inverse to each other EVERYWHERE -/
+theorem interpX_inverse {c : List (Rat × Rat)} (hI : IncrCurve c) (h2 : curveLoX c < curveHiX c) (v : Rat) :
+    interpX (interpX v (swapPts c)) c = v := by
+  obtain ⟨x0, y0, rest, e, hne⟩ := two_points_of_range h2
+  subst e
+  have hs : Incr y0 x0 (swapPts rest) := Incr.swap hI
+  have hne' : swapPts rest ≠ [] := by
+    cases rest with
+    | nil => exact absurd rfl hne
+    | cons p r => simp [swapPts]
+  have := interpX_inverse_aux hs hne' v
+  simpa [swapPts_swapPts] using this
 
 /-- `vol(level(V)) = V` for `V` inside the volume range of a strictly increasing curve -/
 theorem interp_inverse {c : List (Rat × Rat)} (hI : IncrCurve c) {v : Rat} (h0 : curveLoY c ≤ v) (h1 : v ≤ curveHiY c) :
